@@ -39,7 +39,9 @@ func enumPaths(fn *ssa.Function, limit int) ([]*fnPath, bool) {
 		case *ssa.Return, *ssa.Panic:
 			cur.exit = x
 			c := cur
-			out = append(out, &c)
+			if c.feasible() {
+				out = append(out, &c)
+			}
 			return
 		case *ssa.If:
 			for i, s := range b.Succs {
@@ -65,6 +67,32 @@ func enumPaths(fn *ssa.Function, limit int) ([]*fnPath, bool) {
 	}
 	walk(fn.Blocks[0], fnPath{}, map[*ssa.BasicBlock]bool{fn.Blocks[0]: true})
 	return out, complete
+}
+
+// feasible: no condition on the path is, along this very path, a boolean constant that
+// contradicts the edge taken (a flag set to true/false on the branch the path came through).
+func (fp *fnPath) feasible() bool {
+	for _, ec := range fp.conds {
+		v := fp.resolveAt(ec.cond, ec.at.Block())
+		neg := false
+		for {
+			if u, ok := v.(*ssa.UnOp); ok && u.Op == token.NOT {
+				neg = !neg
+				v = fp.resolveAt(u.X, ec.at.Block())
+				continue
+			}
+			break
+		}
+		if c, ok := v.(*ssa.Const); ok && c.Value != nil {
+			if b, isB := c.Type().Underlying().(*types.Basic); isB && b.Info()&types.IsBoolean != 0 {
+				val := c.Value.ExactString() == "true"
+				if (val != neg) != ec.taken {
+					return false
+				}
+			}
+		}
+	}
+	return true
 }
 
 // resolve follows phis along the path: returns the value v denotes when control is in block at.
@@ -122,6 +150,66 @@ func (fp *fnPath) contains(ins ssa.Instruction) bool {
 
 // dominatingConds returns the If conditions that hold whenever block b executes.
 func dominatingConds(b *ssa.BasicBlock) []edgeCond {
+	raw := dominatingCondsRaw(b)
+	// a short-circuit `a && b` (resp. `a || b`) used as a condition is a bool phi: being true
+	// (resp. false) means that every operand was true (resp. false)
+	var out []edgeCond
+	for _, dc := range raw {
+		out = append(out, dc)
+		out = append(out, shortCircuitOperands(dc, 0)...)
+	}
+	return out
+}
+
+// shortCircuitOperands expands a condition that is a short-circuit phi into what it implies.
+func shortCircuitOperands(dc edgeCond, depth int) []edgeCond {
+	ph, ok := dc.cond.(*ssa.Phi)
+	if !ok || depth > 3 {
+		return nil
+	}
+	if b, isB := ph.Type().Underlying().(*types.Basic); !isB || b.Kind() != types.Bool {
+		return nil
+	}
+	// `&&`: constant edges are false; taken == true selects the non-constant edges. `||`: constant edges are true; taken == false selects them.
+	var nonConst []int
+	constVal, uniform := false, true
+	first := true
+	for i, e := range ph.Edges {
+		c, isC := e.(*ssa.Const)
+		if !isC || c.Value == nil {
+			nonConst = append(nonConst, i)
+			continue
+		}
+		v := c.Value.String() == "true"
+		if first {
+			constVal, first = v, false
+		} else if v != constVal {
+			uniform = false
+		}
+	}
+	if first || !uniform || len(nonConst) != 1 || dc.taken == constVal {
+		return nil // not a short-circuit shape, or the phi's value does not pin down which edge was taken
+	}
+	var out []edgeCond
+	idx := nonConst[0]
+	inner := edgeCond{cond: ph.Edges[idx], taken: dc.taken, at: dc.at}
+	out = append(out, inner)
+	out = append(out, shortCircuitOperands(inner, depth+1)...)
+	// the operands tested on the way to that edge
+	pred := ph.Block().Preds[idx]
+	for _, pc := range dominatingCondsRaw(pred) {
+		if pc.at.Block() == dc.at.Block() || dominatesBlock(dc.at.Block(), pc.at.Block()) {
+			continue // already known before the phi's condition: reported separately
+		}
+		out = append(out, pc)
+		out = append(out, shortCircuitOperands(pc, depth+1)...)
+	}
+	return out
+}
+
+func dominatesBlock(a, b *ssa.BasicBlock) bool { return a == b || a.Dominates(b) }
+
+func dominatingCondsRaw(b *ssa.BasicBlock) []edgeCond {
 	var out []edgeCond
 	for d := b.Idom(); d != nil; d = d.Idom() {
 		ifi, ok := d.Instrs[len(d.Instrs)-1].(*ssa.If)
